@@ -243,11 +243,8 @@ func (u *Universe) SplitAt(key []byte) bool {
 	if len(key) == 0 {
 		return false
 	}
-	lookup := key
-	if u.Backend == Uni {
-		// unistore's region manager compares against its memcomparable-encoded region keys
-		lookup = codec.EncodeBytes(nil, key)
-	}
+	// the region managers of both mocks compare their argument as is with the memcomparable-encoded region keys
+	lookup := codec.EncodeBytes(nil, key)
 	region, leader, _, _ := u.Cluster.GetRegionByKey(lookup)
 	if region == nil {
 		return false
@@ -289,7 +286,7 @@ func (u *Universe) MoveLeader(key []byte, pick int) bool {
 	if u.MockCl == nil {
 		return false
 	}
-	region, leader, _, _ := u.MockCl.GetRegionByKey(key)
+	region, leader, _, _ := u.MockCl.GetRegionByKey(codec.EncodeBytes(nil, key))
 	if region == nil || len(region.Peers) < 2 {
 		return false
 	}
@@ -315,7 +312,7 @@ func (u *Universe) MergeAt(key []byte) bool {
 	if u.MockCl == nil {
 		return false
 	}
-	region, _, _, _ := u.MockCl.GetRegionByKey(key)
+	region, _, _, _ := u.MockCl.GetRegionByKey(codec.EncodeBytes(nil, key))
 	if region == nil || len(region.EndKey) == 0 {
 		return false
 	}
@@ -324,7 +321,7 @@ func (u *Universe) MergeAt(key []byte) bool {
 	if err != nil {
 		return false
 	}
-	right, _, _, _ := u.MockCl.GetRegionByKey(rawEnd)
+	right, _, _, _ := u.MockCl.GetRegionByKey(region.EndKey)
 	if right == nil || right.Id == region.Id || !bytes.Equal(right.StartKey, region.EndKey) {
 		return false
 	}
